@@ -6,6 +6,7 @@
      W, H, blocks[k].rect = <<x1,y1,x2,y2>>, blocks[k].lines[j] = [text, sit, conv]   the input (pixels, class tokens);
                               conv[q] = the real ArabicHelper.label_form_to_string applied to the q-th word of str.split()
      minconf, confs[tag]      requested threshold and the confidence the export left in line.transcription_confidence,
+     pre[tag]                 what line.transcription_confidence held before the export (confs counts only where the export wrote it),
      sure[tag]                lower bound (millionths, -1 = none) of the line's confidence known by construction of its posteriors,
                               both in millionths (2000000 = None / line never processed)
      outcome                  "ok" | "exception:<Type>"
@@ -55,7 +56,7 @@ C3 == \A k \in 1..NB :
              present(t) == t \in Range(ot)
          IN  /\ ot = SelectSeq(all, present)
              /\ \A j \in 1..Len(page.blocks[k].lines) :
-                   (~Blank(page.blocks[k].lines[j].text) /\ (Tr.confs[all[j]] >= minconf \/ Tr.sure[all[j]] >= minconf))
+                   (~Blank(page.blocks[k].lines[j].text) /\ ((Tr.confs[all[j]] # Tr.pre[all[j]] /\ Tr.confs[all[j]] >= minconf) \/ Tr.sure[all[j]] >= minconf))
                       => all[j] \in Range(ot)
 \* 8: word contents = whitespace-separated words, converted by the helper on Arabic-script lines; the conversion
 \*    itself is pinned where "logical order" is unambiguous (a word of Arabic letters is reversed, a word without
